@@ -1,6 +1,7 @@
 package main
 
 import (
+	"strings"
 	"fmt"
 	"math"
 
@@ -165,6 +166,66 @@ func (t *c17read) look(ch rune) string {
 	return fmt.Sprint("type:", toks[0].Type())
 }
 
+// the same marker states, but ONE reader stays attached over a long text (the probe characters in a cycle) while the character
+// states are changed: every look-up reads on in that stream until the wanted character comes by
+type c17mid struct {
+	t     *generic.GenericTokenizer
+	a, b  tokenizers.ITokenizerState
+	cycle []rune
+	i     int // characters consumed so far (every token is one character long)
+	left  int
+}
+
+func (t *c17mid) attach() {
+	var sb strings.Builder
+	for k := 0; k < 300; k++ {
+		sb.WriteString(string(t.cycle))
+	}
+	t.t.SetReader(sio.NewStringScanner(sb.String()))
+	t.i, t.left = 0, 300*len(t.cycle)
+}
+func (t *c17mid) add(lo, hi rune, ref string) {
+	switch ref {
+	case "A":
+		t.t.SetCharacterState(lo, hi, t.a)
+	case "B":
+		t.t.SetCharacterState(lo, hi, t.b)
+	default:
+		t.t.SetCharacterState(lo, hi, nil)
+	}
+}
+func (t *c17mid) clear() { t.t.ClearCharacterStates() }
+func (t *c17mid) look(ch rune) string {
+	for n := 0; n < 3*len(t.cycle); n++ {
+		if t.left < 2 {
+			t.attach()
+		}
+		cur := t.cycle[t.i%len(t.cycle)]
+		tok := t.t.NextToken()
+		t.i++
+		t.left--
+		if tok == nil {
+			return "none"
+		}
+		if len([]rune(tok.Value())) != 1 && tok.Type() != 100 && tok.Type() != 101 {
+			return fmt.Sprint("len:", len([]rune(tok.Value())))
+		}
+		if cur != ch {
+			continue
+		}
+		switch tok.Type() {
+		case 100:
+			return "A"
+		case 101:
+			return "B"
+		case tokenizers.Unknown:
+			return "nil"
+		}
+		return fmt.Sprint("type:", tok.Type())
+	}
+	return "not in the cycle"
+}
+
 type c17tok struct {
 	t    *generic.GenericTokenizer
 	a, b tokenizers.ITokenizerState
@@ -252,6 +313,17 @@ func execC17(seg []Ev) []Ev {
 					return func(sc sio.IScanner) *tokenizers.Token { sc.Read(); return tokenizers.NewToken(100+id, "m", 0, 0) }
 				}
 				t = &c17read{t: g, a: mk(0), b: mk(1)}
+			case "tokmid":
+				g := generic.NewGenericTokenizer()
+				g.ClearCharacterStates()
+				setOpts(g, 0)
+				var cyc []rune
+				for _, p := range probes {
+					cyc = append(cyc, rune(p))
+				}
+				m := &c17mid{t: g, a: &markState{0}, b: &markState{1}, cycle: cyc}
+				m.attach()
+				t = m
 			case "tokenizer":
 				g := generic.NewGenericTokenizer()
 				g.ClearCharacterStates()
@@ -333,7 +405,7 @@ func cloneEv(e Ev) Ev {
 
 func genC17(g *Gen) {
 	ops := c17ops()
-	targets := []string{"map", "tokenizer", "word", "ws", "ws0", "word0", "tokread", "tokfunc"}
+	targets := []string{"map", "tokenizer", "word", "ws", "ws0", "word0", "tokread", "tokfunc", "tokmid"}
 	// exhaustive histories of length <= 2 on the map and the tokenizer, length 1 and a sample of 2 on the classes
 	for _, tg := range targets {
 		for _, o1 := range ops {
@@ -387,10 +459,10 @@ func genC17(g *Gen) {
 			}
 		}
 	}
-	for _, tg := range []string{"map", "tokenizer", "tokread", "tokfunc"} {
+	for _, tg := range []string{"map", "tokenizer", "tokread", "tokfunc", "tokmid"} {
 		for _, o1 := range ops {
 			for _, o2 := range ops {
-				if tg == "tokfunc" && (len(fmt.Sprint(o1, o2))%4 != 0) && !g.Thorough() {
+				if (tg == "tokfunc" || tg == "tokmid") && (len(fmt.Sprint(o1, o2))%4 != 0) && !g.Thorough() {
 					continue
 				}
 				g.Run("exhaustive-2:"+tg, []Ev{{"op": "new", "target": tg}, cloneEv(o1), cloneEv(o2)})
